@@ -194,7 +194,17 @@ def rule_c(ctx):
         ctx.check(okk, rid, "origin:%s-delegates" % meth, "WithOrigin::%s delegates to the raw exfiltrator with the same slot/signal/info" % meth, o.span, None)
 
 
+def rule_d(ctx):
+    """each delivery yields at most one, faithful record: the per-signal channel must hand every cell index to exactly one owner"""
+    from .C08 import rule_e as coherence
+    from .C18 import _Alias
+    ctx.rule("C10.d", "the channel behind the info-carrying exfiltrators hands each cell index to one owner at a time: take/give CAS loops recompute "
+                      "the returned index and the new queue word from the snapshot the successful CAS compared against (shared with C08.e)", floor=3)
+    coherence(_Alias(ctx, "C10.d"))
+
+
 def run(ctx):
+    ctx.guarded("C10.d", rule_d)
     ctx.guarded("C10.a", rule_a)
     ctx.guarded("C10.b", rule_b)
     ctx.guarded("C10.c", rule_c)
